@@ -147,7 +147,8 @@ def run_symbolic(
             model = ctx.any_model()
             if model is not None:
                 out["vacuity_twins_violated"] += 1
-        if validate_every and (state["n"] <= 2 or state["n"] % validate_every == 0):
+        if validate_every and not ctx.failures and (state["n"] <= 2 or state["n"] % validate_every == 0):
+            # (paths with refuted assertions are handled by witness replay instead)
             model = interior_model(ctx)
             if model is None:
                 out["validation_skipped"] = out.get("validation_skipped", 0) + 1
